@@ -277,7 +277,15 @@ def _is_pseudo(r) -> bool:
 def _crash_class(d) -> str:
     text = str(d[3])
     if re.search(r"[Pp]ickl|FrozenInstanceError|BrokenProcessPool|concurrent\.futures", text):
-        return "parallel worker result cannot be transferred between processes"
+        # which object could not travel is the mechanism: one key per exception class and kind of object
+        m = re.search(r"((?:\w+\.)*(\w+))\s*:\s*(.*)", text)
+        exc, detail = (m.group(2), m.group(3)) if m else ("?", "")
+        if re.search(r"Can't pickle ~\w+", detail):
+            detail = "a TypeVar that is not a module attribute"
+        else:
+            detail = re.sub(r"0x[0-9a-f]+", "0xADDR", detail)
+            detail = re.sub(r"'[^']*'", "N", detail)[:60]
+        return f"parallel worker result cannot be transferred between processes: {exc}: {detail}"
     m = re.match(r"\s*((?:\w+\.)*\w+)", text)
     return (m.group(1) if m else "?")[:60]
 
@@ -369,9 +377,24 @@ def _classify_pair(da, db):
     if ma == mb or sorted(ma.split("\n")) == sorted(mb.split("\n")):
         # (members of a union, or the per-member detail lines of a message about a union)
         return "*", "union-member-order", "", da, db
+    if ma != mb and _SET_RE.sub(_sort_set, ma) == _SET_RE.sub(_sort_set, mb):
+        # repr() of a set / frozenset object of the checked program: CPython's own order, which depends on the hash seed
+        # when members are str/bytes.  (A dict display keeps insertion order and is not touched here.)
+        return "*", "listed-names-order", "repr of a set object", da, db
     if canon_names(ma) == canon_names(mb):
         return da[0], "listed-names-order", msg_class(da, db), da, db
     return da[0], "content", msg_class(da, db), da, db
+
+
+_SET_RE = re.compile(r"\{[^{}\n]*\}")
+
+
+def _sort_set(m) -> str:
+    inner = m.group(0)[1:-1]
+    items = split_top(inner, ", ")
+    if any(re.search(r"^(?:[^'\"]|'[^']*'|\"[^\"]*\")*: ", it) for it in items):
+        return m.group(0)  # a dict display
+    return "{" + ", ".join(sorted(items)) + "}"
 
 
 def _sort_proto(m) -> str:
@@ -891,6 +914,7 @@ def shard(ctx) -> None:
             # the LAST file (sorted order) has the longest history inside the directory run
             singles = sorted(files)[::-1][: ctx.pick(1, 2)]
             diffs, n = cli_compare(files, os.path.join(scratch, f"c10cli-{ctx.shard}-{g}"), singles)
+            crash_culprit = None
             ctx.count("cli_invocations", n)
             ctx.count("cli_groups")
             ctx.count("cli_files", len(files))
@@ -909,7 +933,23 @@ def shard(ctx) -> None:
                     if c2 is not None:
                         p.found[suf] = ("history", c2, {"history": hmin, "mode": "default", "first_seen": "file-order"})
                         continue
-                wit_files = files if c[0] != "<cli-crash>" else {nm: files[nm]}
+                wit_files = files
+                if c[0] == "<cli-crash>":
+                    # the invocation crashed as a whole: look for one file that crashes it on its own
+                    if crash_culprit is None:
+                        crash_culprit = {}
+                    ck = (variant, suf)
+                    if ck not in crash_culprit:
+                        crash_culprit[ck] = files
+                        for one in sorted(files):
+                            d1, n1 = cli_compare({one: files[one]}, os.path.join(scratch, f"c10cli-{ctx.shard}-{g}-min-{one[:-3]}"), [])
+                            ctx.count("cli_invocations", n1)
+                            if any(suffix_of(x[2]) == suf for x in d1):
+                                crash_culprit[ck] = {one: files[one]}
+                                break
+                    wit_files = crash_culprit[ck]
+                    if nm not in wit_files:
+                        continue  # reported once, with the file that causes it
                 report(ctx, "file-order", c, {"files": wit_files, "cli": list(argvs), "variant": variant, "file": nm},
                        family=(p.family if p else "clean"), src=files[nm], mode="default")
 
